@@ -233,7 +233,14 @@ func (e *fnEnc) safe(name string, cond string, pos token.Pos) {
 	if cond == "true" {
 		return
 	}
-	e.oblig("safe", name, nil, e.curReach, cond, pos)
+	if e.con != nil && e.con.MayPanic {
+		// the contract allows this function to panic: a run-time panic ends
+		// the path like an explicit one (postconditions speak about normal
+		// return only); no safety obligation is claimed here
+		e.note("may_panic: implicit run-time checks are path conditions, not obligations")
+	} else {
+		e.oblig("safe", name, nil, e.curReach, cond, pos)
+	}
 	nr := e.fresh("reach", "Bool")
 	e.assert(fmt.Sprintf("(= %s (and %s %s))", nr, e.curReach, cond))
 	e.curReach = nr
@@ -400,6 +407,17 @@ func (e *fnEnc) writesOf(in ssa.Instruction) []string {
 				}
 				return []string{"*"}
 			}
+			if callee := cc.StaticCallee(); inRepo(e.V, callee) {
+				var out []string
+				for k := range e.V.inferredWrites(callee) {
+					out = append(out, k)
+				}
+				sort.Strings(out)
+				return out
+			}
+			if cc.StaticCallee() != nil {
+				return nil // external without contract: assumed not to write repo heaps (A-EXT-PURE)
+			}
 			return []string{"*"}
 		}
 		// indirect: union of candidates
@@ -407,10 +425,26 @@ func (e *fnEnc) writesOf(in ssa.Instruction) []string {
 		for _, c := range e.V.candidates(cc.Signature()) {
 			cn := e.V.CS.ByKey[c.Key]
 			if cn == nil || !cn.HasAssigns {
+				if cn == nil {
+					for k := range e.V.inferredWrites(c.Fn) {
+						out = append(out, k)
+					}
+					continue
+				}
 				return []string{"*"}
 			}
 			out = append(out, stripLoc(cn.Assigns)...)
 		}
+		if sigIsParserCallback(cc.Signature()) {
+			for _, k2 := range sortedFuncKeys(e.V.P.Funcs) {
+				if strings.HasPrefix(k2, "grammar.parser.callon") {
+					for k := range e.V.inferredWrites(e.V.P.Funcs[k2]) {
+						out = append(out, k)
+					}
+				}
+			}
+		}
+		sort.Strings(out)
 		return out
 	}
 	return nil
@@ -577,6 +611,16 @@ func (V *Verifier) encode(fn *ssa.Function) (enc *fnEnc, err error) {
 				return nil, fmt.Errorf("%s:%d: requires: %v", r.File, r.Line, err)
 			}
 			e.assert(t.S)
+		}
+	}
+	if e.con != nil {
+		for _, r := range e.con.Assumes {
+			t, err := env.tr(r.Expr, "Bool")
+			if err != nil {
+				return nil, fmt.Errorf("%s:%d: assume: %v", r.File, r.Line, err)
+			}
+			e.assert(t.S)
+			e.notes = append(e.notes, "ASSUMED (not an obligation of callers): "+r.Text)
 		}
 	}
 	e.findLoops()
